@@ -9,9 +9,10 @@ import (
 
 func init() {
 	register(&CheckDef{
-		ID:        "C10",
-		Level:     "model_checking",
-		Technique: "bounded symbolic execution: (a) comparison filters vs. the typed-comparison reference on documents with float64 and with json.Number leaves; (b) relational twin run: the same symbolic document with every number as float64 and as json.Number (numeric value linked by an uninterpreted function) must select the same member positions",
+		ID:         "C10",
+		SolverDiff: true,
+		Level:      "model_checking",
+		Technique:  "bounded symbolic execution: (a) comparison filters vs. the typed-comparison reference on documents with float64 and with json.Number leaves; (b) relational twin run: the same symbolic document with every number as float64 and as json.Number (numeric value linked by an uninterpreted function) must select the same member positions",
 		Jobs: func(tier string, seed int64) []*engine.Job {
 			rng := rand.New(rand.NewSource(seed + 10))
 			var cmp []Path
